@@ -4,15 +4,15 @@
 namespace FaxVerif.Generated.C13Tables
 
 /-- `_known_binary_operators`: Python AST class name ↦ C++ operator text -/
-def binaryOps : List (String × String) := [("Add", "+"), ("Sub", "-"), ("Mult", "*"), ("Div", "/"), ("Mod", "%")]
+def binaryOps : List (String × String) := [("Add", "+"), ("Div", "/"), ("Mod", "%"), ("Mult", "*"), ("Sub", "-")]
 
 /-- `_known_unary_operators` -/
-def unaryOps : List (String × String) := [("UAdd", "+"), ("USub", "-"), ("Not", "!")]
+def unaryOps : List (String × String) := [("Not", "!"), ("UAdd", "+"), ("USub", "-")]
 
 /-- `compare_operations` -/
-def compareOps : List (String × String) := [("Lt", "<"), ("LtE", "<="), ("Gt", ">"), ("GtE", ">="), ("Eq", "=="), ("NotEq", "!=")]
+def compareOps : List (String × String) := [("Eq", "=="), ("Gt", ">"), ("GtE", ">="), ("Lt", "<"), ("LtE", "<="), ("NotEq", "!=")]
 
 /-- `_type_priority`: C++ type name ↦ priority -/
-def typePriority : List (String × Nat) := [("int", 0), ("float", 1), ("double", 2)]
+def typePriority : List (String × Nat) := [("double", 2), ("float", 1), ("int", 0)]
 
 end FaxVerif.Generated.C13Tables
